@@ -214,6 +214,23 @@ func runC11(w *mon.W) {
 			alpha = "ACGT" // mostly concrete, so that expansions stay small
 		}
 		s := randCase(r, randString(r, alpha, n), r.Float64())
+		if i%4 == 3 && n > 0 {
+			if n > 600 {
+				n = 65 + r.Intn(536) // expanding is quadratic in poly: keep length x variants small
+			}
+			// sparse ambiguity: a long concrete sequence with 1..6 ambiguity codes at random positions (also
+			// beyond any word-sized position bitmap), so that the expansion stays small enough to compare
+			b := []byte(randString(r, "ACGT", n))
+			for k := 1 + r.Intn(6); k > 0; k-- {
+				pos := r.Intn(n)
+				if r.Intn(3) == 0 {
+					pos = n - 1 - r.Intn(1+n/8)
+				}
+				b[pos] = "RYSWKMBDHVN"[r.Intn(11)]
+			}
+			s = randCase(r, string(b), []float64{0, 0, 0.5}[r.Intn(3)])
+			w.Add("sparse_ambiguity_strings", 1)
+		}
 		hasU := false
 		if r.Intn(10) == 0 && n > 0 {
 			b := []byte(s)
